@@ -1,6 +1,6 @@
 """C09 — mpmc is a bounded FIFO (structure: capacity guard, refill, FIFO ends, success only after transfer)."""
 from rl import (method_role, entry_methods, loc_endswith, path_cond, trace_summary, where, const_of, fmt_val, fmt_loc, fields_of)
-from common import fifo_ends, contains, poll_variant, own_node_roots
+from common import fifo_ends, contains, poll_variant, own_node_roots, fair_no_requeue
 from lib import CheckerError
 
 STATE = 'channel::mpmc::ChannelState'
@@ -19,7 +19,8 @@ def run(C, R):
                      'SendComplete and whose value is the one pushed; R3 FIFO ends for both queues; R4 a send '
                      'reports success only after pushing its own value or in state SendComplete, which is written '
                      'only together with taking that sender\'s value; R5 a value is taken directly from a parked '
-                     'sender to the receiver only under buffer.is_empty().  Order across whole interleavings and '
+                     'sender to the receiver only under buffer.is_empty(); R7 a parked sender or receiver is never re-inserted (the own node is enqueued '
+                     'only when it entered the transition in an unlinked state), so the tail stays the oldest.  Order across whole interleavings and '
                      'the buffers\' own FIFO (C19) are not decided here.')
     R.trusted += ['rustc nightly MIR', 'queue-op summaries (C20)', 'RingBuf contract (C19)']
     R.assumptions += ['RingBuf::push/pop are FIFO (C19, user buffers opaque)']
@@ -32,7 +33,7 @@ def run(C, R):
         constructor_state(R, C.engine(cfg), C.facts(cfg), STATE, {'is_closed': ('const', 0), 'buffer': ('param', 'buffer'), 'receive_waiters': 'empty-queue', 'send_waiters': 'empty-queue'}, 'C09.R0')
         from common import wrapper_discipline
         R.floor('C09.W wrapper-paths[%s]' % cfg, wrapper_discipline(C, R, cfg, ['channel::mpmc::ChannelState'], 'C09.W'), 2)
-        npush = npop = nsucc = nsc = ndirect = nq = 0
+        npush = npop = nsucc = nsc = ndirect = nq = nenq = 0
         # the state layer's atomic transitions, and - so that a wrapper reaching around them is seen too -
         # every method of the channel type itself (state functions inlined)
         subjects = list(entry_methods(F, CG, STATE))
@@ -159,6 +160,12 @@ def run(C, R):
                                        'buffer being empty: buffered (older) values are overtaken [%s]' % (
                                            m['path'], pc), where(F, e), {'trace': trace_summary(path)})
             nq += fifo_ends(R, E, F, m, paths, 'C09.R3')
+            # R7: a parked sender / receiver keeps its place: the own node is enqueued only when it entered unqueued
+            from specs import TYPESTATE
+            unl = set(v for tab in TYPESTATE[STATE].values() for v, linked in tab.items() if linked is False)
+            nenq += fair_no_requeue(R, E, F, m, paths, own_node_roots(F, m), 'C09.R7', 'channel', None,
+                                    fair_only=False, unlinked=unl)
+        R.floor('C09.R7 enqueue-paths[%s]' % cfg, nenq, 2)
         R.floor('C09.R1 push-sites[%s]' % cfg, npush, 3)
         R.floor('C09.R2 pop-paths[%s]' % cfg, npop, 2)
         R.floor('C09.R4 success-paths[%s]' % cfg, nsucc, 3)
